@@ -188,6 +188,10 @@ def gen_structured(rng, n):
             p = p[:rng.randint(0, len(p))]
         elif r < 0.07:
             p = p + rng.choice(["\\", "(", "(?<a", "(?<", "\\k<a", "[", "{", "\\u", "\\p{", "\\c", "(?<a\\u0062", "(?<a\\", "(?<\\uD835"])
+        if r > 0.88:
+            # classes with escaped brackets / parens next to numeric back-references (group pre-count vs class scanning)
+            frag = ["[\\](]", "[^\\]()]+", "[\\]]", "[\\[(]", "[(]", "[)]", "[\\\\(]", "\\1", "\\2", "\\3", "(a)", "(?:b)", "(?<n>c)", "\\k<n>", "[\\])(]", "\\(", "\\)"]
+            p = "".join(rng.choice(frag) for _ in range(rng.randint(2, 5))) + (p if rng.random() < 0.3 else "")
         if len(p) > 120:
             p = p[:120]
         out.append(p)
